@@ -1,4 +1,5 @@
 import MinaModel.Animator
+import MinaModel.Spec.Timing
 import Std.Data.HashMap
 /-!
 # Line-protocol driver: the model at `Float32`
@@ -149,6 +150,12 @@ def runLine (st : Session) (line : String) : Session × String := Id.run do
     let e := parseEasing w[1]!
     let outs := (w.toList.drop 2).map fun t => bits (e.calc (fb t))
     return (st, " ".intercalate outs)
+  | "easepub" =>
+    let outs := (w.toList.drop 2).map fun t => match Spec.parametricPublished w[1]! (fb t) with | some y => bits y | none => "?"
+    return (st, " ".intercalate outs)
+  | "timing" =>
+    let outs := (w.toList.drop 2).map fun t => match Spec.timingPublished w[1]! (fb t) with | some y => bits y | none => "?"
+    return (st, " ".intercalate outs)
   | "easesweep" =>
     let e := parseEasing w[1]!
     let start := w[2]!.toNat!
@@ -261,7 +268,7 @@ def runLine (st : Session) (line : String) : Session × String := Id.run do
       | .ok a' => return ({ st with slots := st.slots.insert w[1]!.toNat! (.an sh a') }, showAnim a')
       | .error p => return ({ st with slots := st.slots.erase w[1]!.toNat! }, "panic:" ++ p.tag)
     | _ => return (st, "bad-slot")
-  | "reset" => return ({ st with slots := {} }, "ok")
+  | "reset" => return ({}, "ok")
   | _ => return (st, "bad-op")
 
 partial def loop (h : IO.FS.Stream) (out : IO.FS.Stream) (st : Session) : IO Unit := do
